@@ -84,7 +84,7 @@ def Inv (l : IMAP) (pending : Option Nat) (w : World) : Prop :=
       (w.count : Int) + n ≤ l.maxMessageCountPerMailbox ∧ (w.uidNext : Int) + n ≤ l.maxUID
 
 theorem trace_within (l : IMAP) (hl : U32Limits l) (evs : List Ev) (p : Option Nat) (w : World)
-    (hinv : Inv l p w) (hp : NoRenameParents evs) (hc : CheckThenInsert p evs) (hi : EvsInt64 evs) :
+    (hinv : Inv l p w) (hc : CheckThenInsert p evs) (hi : EvsInt64 evs) :
     ∀ w' ∈ trace l evs w, Within l w' := by
   induction evs generalizing p w with
   | nil => simp [trace]
@@ -93,13 +93,13 @@ theorem trace_within (l : IMAP) (hl : U32Limits l) (evs : List Ev) (p : Option N
     have hwu := hw
     unfold Within at hwu
     -- it suffices to re-establish the invariant for the next state
-    suffices hnext : ∃ p', Inv l p' (step l w e) ∧ NoRenameParents rest ∧ CheckThenInsert p' rest ∧ EvsInt64 rest by
-      obtain ⟨p', hinv', hp', hc', hi'⟩ := hnext
+    suffices hnext : ∃ p', Inv l p' (step l w e) ∧ CheckThenInsert p' rest ∧ EvsInt64 rest by
+      obtain ⟨p', hinv', hc', hi'⟩ := hnext
       intro w' hw'
       simp only [trace, List.mem_cons] at hw'
       rcases hw' with rfl | hw'
       · exact hinv'.1
-      · exact ih p' _ hinv' hp' hc' hi' w' hw'
+      · exact ih p' _ hinv' hc' hi' w' hw'
     cases p with
     | some s =>
       -- only `insert s` is allowed
@@ -107,7 +107,7 @@ theorem trace_within (l : IMAP) (hl : U32Limits l) (evs : List Ev) (p : Option N
       | insert s' =>
         simp only [CheckThenInsert] at hc
         obtain ⟨rfl, hc'⟩ := hc
-        refine ⟨none, ?_, by simpa [NoRenameParents] using hp, hc', by simpa [EvsInt64] using hi⟩
+        refine ⟨none, ?_, hc', by simpa [EvsInt64] using hi⟩
         simp only at hpass
         rcases hpass with hnil | ⟨n, hpn, h1, h2⟩
         · simp [step, hnil, Inv, hw]
@@ -128,7 +128,7 @@ theorem trace_within (l : IMAP) (hl : U32Limits l) (evs : List Ev) (p : Option N
       cases e with
       | insert _ => simp [CheckThenInsert] at hc
       | create parents =>
-        refine ⟨none, ?_, by simpa [NoRenameParents] using hp, by simpa [CheckThenInsert] using hc, by simpa [EvsInt64] using hi⟩
+        refine ⟨none, ?_, by simpa [CheckThenInsert] using hc, by simpa [EvsInt64] using hi⟩
         simp only [step]
         split
         · rename_i hck
@@ -143,14 +143,24 @@ theorem trace_within (l : IMAP) (hl : U32Limits l) (evs : List Ev) (p : Option N
             omega
         · exact ⟨hw, hpass⟩
       | renameParents parents =>
-        simp only [NoRenameParents] at hp
-        obtain ⟨rfl, hp'⟩ := hp
-        refine ⟨none, ?_, hp', by simpa [CheckThenInsert] using hc, by simpa [EvsInt64] using hi⟩
+        refine ⟨none, ?_, by simpa [CheckThenInsert] using hc, by simpa [EvsInt64] using hi⟩
         simp only [step]
-        exact ⟨by simpa using hw, by simpa using hpass⟩
+        split
+        · exact ⟨hw, hpass⟩
+        · rename_i hck
+          refine ⟨?_, by simpa using hpass⟩
+          unfold Within
+          simp only [Int.natCast_add]
+          by_cases hp0 : parents = 0
+          · subst hp0; simp; omega
+          · have hpos : parents > 0 := by omega
+            simp only [hpos, decide_true, Bool.true_and, Bool.not_eq_false, Bool.not_eq_eq_eq_not, Bool.not_true, Option.isNone_iff_eq_none, checkMailBoxCount] at hck
+            split at hck
+            · rename_i hge; simp at hck
+            · omega
       | addTx n =>
         simp only [EvsInt64] at hi
-        refine ⟨none, ?_, by simpa [NoRenameParents] using hp, by simpa [CheckThenInsert] using hc, hi.2⟩
+        refine ⟨none, ?_, by simpa [CheckThenInsert] using hc, hi.2⟩
         simp only [step]
         split
         · rename_i hck
@@ -162,7 +172,7 @@ theorem trace_within (l : IMAP) (hl : U32Limits l) (evs : List Ev) (p : Option N
         · exact ⟨hw, hpass⟩
       | replaceTx k n =>
         simp only [EvsInt64] at hi
-        refine ⟨none, ?_, by simpa [NoRenameParents] using hp, by simpa [CheckThenInsert] using hc, hi.2⟩
+        refine ⟨none, ?_, by simpa [CheckThenInsert] using hc, hi.2⟩
         simp only [step]
         split
         · rename_i hck
@@ -179,7 +189,7 @@ theorem trace_within (l : IMAP) (hl : U32Limits l) (evs : List Ev) (p : Option N
         · exact ⟨hw, hpass⟩
       | check s n =>
         simp only [EvsInt64] at hi
-        refine ⟨some s, ?_, by simpa [NoRenameParents] using hp, by simpa [CheckThenInsert] using hc, hi.2⟩
+        refine ⟨some s, ?_, by simpa [CheckThenInsert] using hc, hi.2⟩
         simp only [step]
         split
         · rename_i hck
@@ -189,14 +199,14 @@ theorem trace_within (l : IMAP) (hl : U32Limits l) (evs : List Ev) (p : Option N
         · refine ⟨hw, Or.inl ?_⟩
           simp [hpass]
       | remove k =>
-        refine ⟨none, ?_, by simpa [NoRenameParents] using hp, by simpa [CheckThenInsert] using hc, by simpa [EvsInt64] using hi⟩
+        refine ⟨none, ?_, by simpa [CheckThenInsert] using hc, by simpa [EvsInt64] using hi⟩
         simp only [step]
         refine ⟨?_, by simpa using hpass⟩
         unfold Within
         simp only
         omega
       | deleteMailbox =>
-        refine ⟨none, ?_, by simpa [NoRenameParents] using hp, by simpa [CheckThenInsert] using hc, by simpa [EvsInt64] using hi⟩
+        refine ⟨none, ?_, by simpa [CheckThenInsert] using hc, by simpa [EvsInt64] using hi⟩
         simp only [step]
         refine ⟨?_, by simpa using hpass⟩
         unfold Within
